@@ -1039,7 +1039,17 @@ def apply_blockwise_func(
     if isinstance(arg, list):
         return [apply_blockwise_func(a, functions_dict) for a in arg]
     else:
-        return (apply_blockwise_func(a, functions_dict) for a in arg)
+        return _apply_blockwise_func_stream(arg, functions_dict)
+
+
+def _apply_blockwise_func_stream(arg, functions_dict):
+    # Release each block before the next one is read: a generator expression would keep the
+    # previous element alive in its frame while the next one is being loaded.
+    for a in arg:
+        result = apply_blockwise_func(a, functions_dict)
+        del a
+        yield result
+        del result
 
 
 def make_fused_function(
